@@ -605,13 +605,16 @@ class Configuration(_Configuration):
                 f'\nsyntax error in section {self.scope.location()}\nline {self.parser.number}: {line_str}\n\n{self.error!s}',
             )
 
-        self._commit_reload()
+        # the whole file is checked before any of it is applied: validate() ran after the commit
+        # and its refusal (False) was thrown away, the file was applied all the same
+        self.neighbors = self.neighbor.neighbors
+        self.processes = self.process.processes
         self._link()
+        if self.validate() is not True:
+            self._rollback_reload()
+            return False
 
-        check = self.validate()
-        if check:
-            return check
-
+        self._commit_reload()
         return True
 
     def validate(self) -> bool:
